@@ -86,7 +86,7 @@ class C17(Prop):
                 Layer("stack chains (<=6 push/pop steps, optional extra consumption rule)",
                       e(lambda: GI.stack_chain_cases(6, 4)), policies=["natural@full", "1@full"]),
                 Layer("marked pairs with unbalanced consumption rules", e(GI.marked_pair_cases), policies=["natural@full", "1@full"]),
-                Layer("IG(3 rules)/4 x regular", i(lambda: (c for k, c in enumerate(GI.ig_cases(3, 3)) if k % 4 == 0)),
+                Layer("IG(3 rules)/8 x regular", i(lambda: (c for k, c in enumerate(GI.ig_cases(3, 3)) if k % 8 == 0)),
                       rep=rep, policies=["natural"]),
                 Layer("IG(<=2 rules) x regular", i(lambda: GI.ig_cases(1, 2)), rep=None, policies=three)]
 
@@ -205,6 +205,8 @@ class C17(Prop):
             for form in ("regex", "dfa", "enfa", "regex/start=A", "regex/clashing spellings", "enfa/clashing spellings"):
                 if ctx.variant == "few" and form != "regex" and (k % 4 or form == "enfa/clashing spellings"):
                     continue
+                if ctx.variant != "few" and form != "regex" and k % 2:
+                    continue        # thorough: the other operand forms / spellings on every second regular language
                 swapped = form.endswith("start=A")
                 clash = form.endswith("clashing spellings")
                 rtext = text.replace("a", GI.TER_CLASH) if clash else text
